@@ -317,8 +317,20 @@ func c06Body(in0 c06Input, k0 int, out **c06Run) func() {
 			Transport: s.Conn,
 			ConnState: func(st mqtt.ConnState, err error) { r.states = append(r.states, c06StateEv{st, err}) },
 		}
+		// Behind the recording handler sits a ServeMux with wildcard filters, as applications have it:
+		// whatever topic the peer chose goes through the library's dispatch code as well.
+		mux := &mqtt.ServeMux{}
+		for _, f := range []string{"#", "+/+", "+", "$SYS/#", "t/0", "a/+/c/#"} {
+			if err := mux.Handle(f, mqtt.HandlerFunc(func(*mqtt.Message) {})); err != nil {
+				vrt.Failf("c06:harness:mux", "ServeMux.Handle(%q): %v", f, err)
+				return
+			}
+		}
+		async := &mqtt.ServeAsync{Handler: mux}
 		cli.Handle(mqtt.HandlerFunc(func(m *mqtt.Message) {
 			r.got = append(r.got, c06Msg{topic: m.Topic, payload: string(m.Payload), qos: m.QoS})
+			mux.Serve(m)
+			async.Serve(m)
 		}))
 		if _, err := cli.Connect(vctx.Background(), "c06"); err != nil && k >= 0 {
 			vrt.Failf("c06:harness:connect", "Connect over the scripted peer failed: %v", err)
